@@ -685,7 +685,7 @@ func TestCheck(t *testing.T) {
 
 	for _, a := range []string{"epidemic", "prophet", "spray"} {
 		a := a
-		r.Group("coincidence-submit-"+a, r.Pick(60, 1700), func(i int, rng *report.Rand) {
+		r.Group("coincidence-submit-"+a, r.Pick(36, 600), func(i int, rng *report.Rand) {
 			if err := coincidenceSubmit(r, a, i); err != nil {
 				r.Violation("c13.node-deadlock-or-panic", err.Error(), map[string]interface{}{"algorithm": a, "workload": "coincidence-submit"})
 			}
